@@ -158,6 +158,10 @@ impl CAA {
             warn!("unexpected flag values in caa (0 or 128): {}", flags);
         }
 
+        // RFC 8659 4.1: the tag is preceded by a single length octet, and is not empty
+        if tag_str.is_empty() || tag_str.len() > 255 {
+            return Err(ParseError::Message("caa tag must have 1 to 255 octets"));
+        }
         let tag = tag_str.to_owned();
         let value = value_str.as_bytes().to_vec();
 
